@@ -231,11 +231,9 @@ row(props=["C20"], func="pkg/infrastructure/ast/ast_go.(CocagoParser).Visitor$1"
     expr="free_currentStruct.NodeName", what="a struct type is registered under the name of its own type declaration")
 EV = "pkg/application/evaluate/evaluator."
 MPATH = 'ident.Package + "." + ident.NodeName + "." + method.Name'
-row(props=["C18"], func=EV + "(NullPointException).EvaluateList", params=["n", "model", "nodes", "nodeMap", "identifiers"], kind="emits", target="mapstore:makemap1", tag={}, total=2, index=0,
-    each={"as": "ident,method"}, when="method.IsReturnNull", fields={"key": MPATH, "value": MPATH}, what="nullable ⇔ returns null; collected through a map so each method is listed once")
-row(props=["C18"], func=EV + "(NullPointException).EvaluateList", params=["n", "model", "nodes", "nodeMap", "identifiers"], kind="emits", target="mapstore:makemap1", tag={}, index=1,
-    each={"as": "ident,method,annotation"}, when='!method.IsReturnNull && (annotation.Name == "Nullable" || annotation.Name == "CheckForNull")', fields={"key": MPATH, "value": MPATH},
-    what="nullable ⇔ annotated @Nullable / @CheckForNull")
+row(props=["C18"], func=EV + "(NullPointException).EvaluateList", params=["n", "model", "nodes", "nodeMap", "identifiers"], kind="emits", target="mapstore:makemap1", tag={}, merge=True,
+    each={"as": "ident,method"}, when='method.IsReturnNull || exists(method.Annotations, a, a.Name == "Nullable" || a.Name == "CheckForNull")', fields={"key": MPATH},
+    what="nullable ⇔ returns null or is annotated @Nullable / @CheckForNull; collected under its full name so each method is listed once")
 row(props=["C16"], func="pkg/domain/cloc.BuildLanguageMap", params=["languageMap", "keys", "filePath"], kind="emits", target="mapstore:p0", tag={}, total=1,
     when="true", fields={"key": "trimSuffix(base(filePath), ext(filePath))"}, what="the row is named after the output file without its extension (= the subdirectory name)")
 row(props=["C16"], func="cmd.processTopFile", params=["dir"], kind="slicebound", field="Files", each={"as": "summary"},
